@@ -6,18 +6,21 @@
   Specification: `Spec/LeafBox.lean` (`Spec.leafBox`, `Spec.measureAvail`), written from the CSS box model.
   All theorems are about the model at `Rat`; the measure function `m` is an arbitrary (pure) function.
 
-  Hypotheses that `leaf_root_spec` needs and why (each excluded corner is replayed on the implementation by
-  harness/src/c19.rs `fixed_leaf_cases`, and proved to *violate* the specification below):
-    * `0 ≤ padding+border (vertical)`: leaf.rs l.149 floors the height at `0` (`unwrap_or(0.0)`), the width is not.
-    * with an aspect ratio `r` (`C19L.ARHyp`):
-        - `0 < r`;
-        - block root only: `max-size` has both axes definite or neither — `compute_root_layout` transfers a single
-          definite max axis through the ratio (mod.rs l.81–85) while `compute_leaf_layout` does not (leaf.rs l.56–57);
-        - if the height is not declared: the width is not determined by the padding+border floor — l.149 divides the
-          *unfloored* width by the ratio;
-        - the specified box is not flatter than its ratio (`width / r ≤ height`) — l.149 re-applies
-          `height ≥ width / ratio` *after* clamping and also when the height is declared, so a declared height, a
-          max-height or the content-box adjustment that make the box flatter than its ratio are overridden.
+  The model follows leaf.rs *after* the repair "a leaf's aspect ratio must not override a height that is already
+  determined, and the height it derives is still clamped by min/max height" (l.147–157).  Before it, l.149 re-applied
+  `height ≥ width / ratio` after clamping and to declared heights; the three witnesses of that defect are kept below
+  as `fixed_*` theorems (they now meet the specification) and as fixed cases of harness/src/c19.rs.
+
+  Hypotheses that `leaf_root_spec` still needs, and why (each remaining corner is proved to *differ* from the
+  specification on a witness below and is replayed on the implementation by the harness' fixed cases):
+    * `0 ≤ padding+border (vertical)`: leaf.rs l.153 floors an undetermined height at `0` (`unwrap_or(0.0)`), the
+      width is not floored.  Negative padding/border is not valid CSS; taffy does not reject it.
+    * with an aspect ratio (`C19L.ARHyp`; both vacuous without one):
+        - `maxBoth`, block root only: `max-size` has both axes definite or neither — `compute_root_layout` transfers a
+          single definite max axis through the ratio (mod.rs l.81–85) and thereby clamps a *declared* size in the
+          other axis, while `compute_leaf_layout` does not transfer it (leaf.rs l.56–57);
+        - `widthNotFloored`: if the height is not declared, the width is not determined by the padding+border floor —
+          l.153 divides the *unfloored* width by the ratio.
 -/
 import TaffyVerif.Lemmas.LeafBox
 
@@ -33,7 +36,7 @@ theorem dispatch_perform (d : Display) :
 /-- **The single leaf's layout and its measure calls are the specified ones.** -/
 theorem leaf_root_spec (s : Style Rat) (m : MeasureFn) (av : Size (AvailableSpace Rat))
     (hpb : 0 ≤ (Spec.pb s av).height)
-    (har : ∀ r, s.aspectRatio = some r → ARHyp s m av r) :
+    (har : s.aspectRatio ≠ none → ARHyp s m av) :
     layoutSingleLeafWith s m av = .ok (Spec.leafBox s m av, Spec.leafMeasureCalls s av) := by
   have hmax := hmax_of s m av har
   obtain ⟨out, hout, hcs, hsz⟩ := leaf_at_root s m av
@@ -50,7 +53,7 @@ theorem leaf_root_spec (s : Style Rat) (m : MeasureFn) (av : Size (AvailableSpac
 theorem leaf_root_spec_no_ratio (s : Style Rat) (m : MeasureFn) (av : Size (AvailableSpace Rat))
     (hpb : 0 ≤ (Spec.pb s av).height) (har : s.aspectRatio = none) :
     layoutSingleLeafWith s m av = .ok (Spec.leafBox s m av, Spec.leafMeasureCalls s av) :=
-  leaf_root_spec s m av hpb (fun r h => by rw [har] at h; cases h)
+  leaf_root_spec s m av hpb (fun h => absurd har h)
 
 /-! ### concrete inputs: the hypotheses are satisfiable, and each excluded corner really fails -/
 
@@ -74,55 +77,88 @@ def sGood : Style Rat := styleOf fun s => { s with
 
 /-- non-vacuity of `leaf_root_spec`: a style with an aspect ratio meets every hypothesis … -/
 example : 0 ≤ (Spec.pb sGood (avail 400 300)).height ∧
-    ∀ r, sGood.aspectRatio = some r → ARHyp sGood (mFixed 30 10) (avail 400 300) r := by
-  refine ⟨by decide +kernel, fun r hr => ?_⟩
-  have : r = 2 := by simpa [sGood, styleOf] using hr.symm
-  subst this
-  exact ⟨by decide +kernel, fun _ => by decide +kernel, fun _ => by decide +kernel, by decide +kernel⟩
+    (sGood.aspectRatio ≠ none → ARHyp sGood (mFixed 30 10) (avail 400 300)) :=
+  ⟨by decide +kernel, fun _ => ⟨fun _ => by decide +kernel, fun _ => by decide +kernel⟩⟩
 
 /-- … and the resulting box is 211 × 108 (200 + 5 + 4 + 2 wide; height = width / 2 + vertical padding + border) -/
 example : (Spec.leafBox sGood (mFixed 30 10) (avail 400 300)).size = ⟨211, 108⟩ := by decide +kernel
 
-/-- corner "both sizes + ratio": size 100 × 10, ratio 1 — the code answers 100 × 100, the specification 100 × 10 -/
+/-! #### the witnesses of the repaired defect now meet the specification (`PerformLayout` = `ComputeSize` too) -/
+
+def specHolds (s : Style Rat) (m : MeasureFn) (av : Size (AvailableSpace Rat)) : Prop :=
+  layoutSingleLeafWith s m av = .ok (Spec.leafBox s m av, Spec.leafMeasureCalls s av)
+instance (s : Style Rat) (m : MeasureFn) (av : Size (AvailableSpace Rat)) : Decidable (specHolds s m av) := by
+  unfold specHolds; infer_instance
+
+/-- `compute_leaf_layout` in `ComputeSize` mode with the root's input (the early-return path where it applies) -/
+def computeSizeOf? (s : Style Rat) (m : MeasureFn) (av : Size (AvailableSpace Rat)) : Option (Size Rat) :=
+  match computeLeafLayout { rootInput s av with runMode := .computeSize } s m with
+  | .ok (o, _) => some o.size
+  | .error _ => none
+
+/-- size 100 × 10, ratio 1: was 100 × 100, now 100 × 10 -/
 def sBoth : Style Rat := styleOf fun s => { s with size := ⟨.length 100, .length 10⟩, aspectRatio := some 1 }
-theorem corner_ratio_both_sizes :
-    layoutSingleLeafWith sBoth (mFixed 0 0) maxContent ≠
-      .ok (Spec.leafBox sBoth (mFixed 0 0) maxContent, Spec.leafMeasureCalls sBoth maxContent) ∧
-    (Spec.leafBox sBoth (mFixed 0 0) maxContent).size = ⟨100, 10⟩ ∧
-    sizeOf? (layoutSingleLeafWith sBoth (mFixed 0 0) maxContent) = some ⟨100, 100⟩ := by
+theorem fixed_ratio_both_sizes :
+    specHolds sBoth (mFixed 0 0) maxContent ∧
+    sizeOf? (layoutSingleLeafWith sBoth (mFixed 0 0) maxContent) = some ⟨100, 10⟩ ∧
+    computeSizeOf? sBoth (mFixed 0 0) maxContent = some ⟨100, 10⟩ := by
   decide +kernel
 
-/-- corner "max-height": width 100, ratio 1, max-height 20 on a flex root — the code answers 100 × 100 (max-height is
-not honoured), the specification 100 × 20 -/
+/-- width 100, ratio 1, max-height 20 on a flex root: was 100 × 100 (max-height not honoured), now 100 × 20 -/
 def sMaxH : Style Rat := styleOf fun s => { s with
   size := ⟨.length 100, .auto⟩, maxSize := ⟨.auto, .length 20⟩, aspectRatio := some 1 }
-theorem corner_ratio_max_height :
-    (Spec.leafBox sMaxH (mFixed 0 0) maxContent).size = ⟨100, 20⟩ ∧
-    sizeOf? (layoutSingleLeafWith sMaxH (mFixed 0 0) maxContent) = some ⟨100, 100⟩ := by
+theorem fixed_ratio_max_height :
+    specHolds sMaxH (mFixed 0 0) maxContent ∧
+    sizeOf? (layoutSingleLeafWith sMaxH (mFixed 0 0) maxContent) = some ⟨100, 20⟩ ∧
+    computeSizeOf? sMaxH (mFixed 0 0) maxContent = some ⟨100, 20⟩ := by
   decide +kernel
 
-/-- the same style on a block root: the root transfers max-height to max-width through the ratio, the answer is 20 × 20 -/
-theorem corner_ratio_max_height_block :
-    sizeOf? (layoutSingleLeafWith { sMaxH with display := .block } (mFixed 0 0) maxContent) = some ⟨20, 20⟩ := by
-  decide +kernel
-
-/-- corner "content-box": content width 100, padding-left 50, ratio 1 — CSS: border box 150 × 100; the code re-applies
-the ratio to the border-box width and answers 150 × 150 -/
+/-- content-box, content width 100, padding-left 50, ratio 1: was 150 × 150, now 150 × 100 -/
 def sCB : Style Rat := styleOf fun s => { s with
   boxSizing := .contentBox, size := ⟨.length 100, .auto⟩, aspectRatio := some 1,
   padding := ⟨.length 50, .length 0, .length 0, .length 0⟩ }
-theorem corner_ratio_content_box :
-    (Spec.leafBox sCB (mFixed 0 0) maxContent).size = ⟨150, 100⟩ ∧
-    sizeOf? (layoutSingleLeafWith sCB (mFixed 0 0) maxContent) = some ⟨150, 150⟩ := by
+theorem fixed_ratio_content_box :
+    specHolds sCB (mFixed 0 0) maxContent ∧
+    sizeOf? (layoutSingleLeafWith sCB (mFixed 0 0) maxContent) = some ⟨150, 100⟩ ∧
+    computeSizeOf? sCB (mFixed 0 0) maxContent = some ⟨150, 100⟩ := by
   decide +kernel
 
-/-- corner "floored width": flex root, auto sizes, max-width 10 < padding 30, ratio 1 — specified 30 × 30 (ratio of the
-used width); the code divides the unfloored width (10) and answers 30 × 10 -/
+/-- auto sizes with a ratio and a max-height: the ratio-derived height is now clamped (content 30 × 10, ratio 1,
+max-height 20: 30 × 20; was 30 × 30) -/
+theorem fixed_ratio_auto_max_height :
+    specHolds { sMaxH with size := ⟨.auto, .auto⟩ } (mFixed 30 10) maxContent ∧
+    sizeOf? (layoutSingleLeafWith { sMaxH with size := ⟨.auto, .auto⟩ } (mFixed 30 10) maxContent) = some ⟨30, 20⟩ := by
+  decide +kernel
+
+/-! #### the corners that remain -/
+
+/-- remaining corner `maxBoth` (**a violation of C19's statement**: a declared width of 100 with no max-width comes
+out as 20): the style of `fixed_ratio_max_height` on a *block* root — the root transfers max-height 20 through the
+ratio to a max-width of 20 and clamps the declared width with it; specified (and answered on a flex root) 100 × 20 -/
+theorem corner_block_root_max_transfer :
+    ¬ specHolds { sMaxH with display := .block } (mFixed 0 0) maxContent ∧
+    (Spec.leafBox { sMaxH with display := .block } (mFixed 0 0) maxContent).size = ⟨100, 20⟩ ∧
+    sizeOf? (layoutSingleLeafWith { sMaxH with display := .block } (mFixed 0 0) maxContent) = some ⟨20, 20⟩ := by
+  decide +kernel
+
+/-- remaining corner `widthNotFloored` (**a violation of C19's statement**: the ratio is applied to a width that is
+not the box's width): flex root, auto sizes, max-width 10 < padding 30, ratio 1 — the box is 30 wide, specified
+30 × 30; the code divides the unfloored width (10) and answers 30 × 10 -/
 def sFloor : Style Rat := styleOf fun s => { s with
   maxSize := ⟨.length 10, .auto⟩, aspectRatio := some 1, padding := ⟨.length 30, .length 0, .length 0, .length 0⟩ }
 theorem corner_ratio_floored_width :
+    ¬ specHolds sFloor (mFixed 0 0) maxContent ∧
     (Spec.leafBox sFloor (mFixed 0 0) maxContent).size = ⟨30, 30⟩ ∧
     sizeOf? (layoutSingleLeafWith sFloor (mFixed 0 0) maxContent) = some ⟨30, 10⟩ := by
+  decide +kernel
+
+/-- remaining corner "negative vertical padding" (invalid CSS, not a violation): padding-top −10, no content — the
+formula gives −10, the code floors the undetermined height at 0 -/
+def sNeg : Style Rat := styleOf fun s => { s with padding := ⟨.length 0, .length 0, .length (-10), .length 0⟩ }
+theorem corner_negative_padding :
+    ¬ specHolds sNeg (mFixed 0 0) maxContent ∧
+    (Spec.leafBox sNeg (mFixed 0 0) maxContent).size = ⟨0, -10⟩ ∧
+    sizeOf? (layoutSingleLeafWith sNeg (mFixed 0 0) maxContent) = some ⟨0, 0⟩ := by
   decide +kernel
 end examples
 
@@ -187,6 +223,30 @@ theorem leaf_early_return (input : LayoutInput Rat) (s : Style Rat) (m : Measure
   simp only [hrm, hns, hst, this, Bool.and_self, if_true]
   refine ⟨_, rfl, ?_⟩
   rfl
+
+theorem known_or_nodeSize (input : LayoutInput Rat) (s : Style Rat) (adj : Size Rat) :
+    input.knownDimensions.orOpt (nodeSizes input s adj).1 = (nodeSizes input s adj).1 := by
+  unfold nodeSizes
+  rcases hk : input.knownDimensions with ⟨_ | kw, _ | kh⟩ <;> cases input.sizingMode <;> simp [Size.orOpt]
+
+/-- **`ComputeSize` and `PerformLayout` agree** whenever both node sizes are definite (style size or known dimension):
+the size `PerformLayout` answers is the early-return size of `leaf_early_return`, whatever the measure function returns. -/
+theorem leaf_run_modes_agree (input : LayoutInput Rat) (s : Style Rat) (m : MeasureFn) (w h : Rat)
+    (hns : (nodeSizes input s (box input.parentSize s).boxSizingAdjustment).1 = ⟨some w, some h⟩) :
+    ∃ out calls, computeLeafLayout { input with runMode := .performLayout } s m = .ok (out, calls) ∧
+      out.size = Size.f32Max (Size.fo_clamp ⟨w, h⟩
+          (nodeSizes input s (box input.parentSize s).boxSizingAdjustment).2.1
+          (nodeSizes input s (box input.parentSize s).boxSizingAdjustment).2.2.1)
+        (box input.parentSize s).paddingBorder.sumAxes := by
+  have hk := known_or_nodeSize input s (box input.parentSize s).boxSizingAdjustment
+  rw [hns] at hk
+  have hn : nodeSizes { input with runMode := .performLayout } s (box input.parentSize s).boxSizingAdjustment
+      = nodeSizes input s (box input.parentSize s).boxSizingAdjustment := rfl
+  have hrm : (RunMode.performLayout == RunMode.computeSize) = false := rfl
+  unfold computeLeafLayout
+  simp only [hn, hns, hk, hrm, Bool.false_and, Bool.false_eq_true, if_false, Size.unwrapOr, Option.getD_some,
+    Option.isSome_some, if_true]
+  exact ⟨_, _, rfl, rfl⟩
 
 /-- non-vacuity of `leaf_early_return`: a flex leaf of size 100 × 10 in `ComputeSize` mode -/
 example : computeLeafLayout
@@ -284,9 +344,8 @@ theorem min_wins_width (s : Style Rat) (m : MeasureFn) (av : Size (AvailableSpac
   rw [clamp_degenerate _ _ _ hle]
   rfl
 
-/-- the same in the height, without an aspect ratio and with a non-negative vertical padding + border -/
+/-- the same in the height, unconditionally (with the repaired l.147–157 the ratio-derived height is clamped too) -/
 theorem min_wins_height (s : Style Rat) (m : MeasureFn) (av : Size (AvailableSpace Rat)) (hd : s.display ≠ .none)
-    (har : s.aspectRatio = none) (hpb : 0 ≤ (Spec.pb s av).height)
     (mn mx : Rat) (hmn : (Spec.minS s av).height = some mn) (hmx : (Spec.maxS s av).height = some mx) (hle : mx ≤ mn)
     (l : Layout Rat) (calls : List (MeasureCall Rat)) (h : layoutSingleLeafWith s m av = .ok (l, calls)) :
     l.size.height = Spec.floorAt mn (Spec.pb s av).height := by
@@ -295,10 +354,8 @@ theorem min_wins_height (s : Style Rat) (m : MeasureFn) (av : Size (AvailableSpa
   rw [hout'] at hout
   cases hout
   subst hl
-  simp only [rootLayout, hsz, Size.f32Max, Size.fo_clamp, fo_clamp_eq, hmn, hmx, har, Option.map_none,
-    Option.getD_none]
-  rw [clamp_degenerate _ _ _ hle, fmax_comm3]
-  exact fmax_of_le _ _ (le_trans hpb (floor_ge _ _))
+  simp only [rootLayout, hsz, Size.f32Max, Size.fo_clamp, fo_clamp_eq, hmn, hmx]
+  split_ifs <;> rw [clamp_degenerate _ _ _ hle] <;> rfl
 
 /-- non-vacuity of `min_wins_*`: min 80 × 20, max 20 × 10, style width 50 -/
 def sMinMax : Style Rat := styleOf fun s => { s with
